@@ -308,10 +308,31 @@ func (s *script) randCfg() cfgT {
 	return cfgT{s.r.Bool(), s.r.Bool(), s.r.Bool(), s.r.Bool()}
 }
 
+// resetAt: new script under a real network schedule (class "fork-configuration-dependent paths")
+func (s *script) resetAt(net string, h uint64, limit int) cfgT {
+	var op string
+	res := hx.Guard(func() string { op = s.w.ResetAt(net, h, limit); return "ok" })
+	s.out.Emit(op, res)
+	s.all = nil
+	s.chain = nil
+	s.reqSeq = 100
+	f := s.w.cfg
+	return cfgT{f[0], f[1], f[2], f[3]}
+}
+
 // general script: adds, packs, blocks, reorgs, lookups, expiry.
 func (s *script) general(nops int, limit int, odd bool, malformed bool) {
-	c := s.randCfg()
-	s.reset(c.p016, c.p018, c.p021, c.p023, limit)
+	s.generalAt(nops, limit, odd, malformed, "", 0)
+}
+
+func (s *script) generalAt(nops int, limit int, odd bool, malformed bool, net string, height uint64) {
+	var c cfgT
+	if net != "" {
+		c = s.resetAt(net, height, limit)
+	} else {
+		c = s.randCfg()
+		s.reset(c.p016, c.p018, c.p021, c.p023, limit)
+	}
 	canon := canonicalSources(s.r)
 	s.srcs = canon
 	if odd {
@@ -653,6 +674,29 @@ func (s *script) clearScript() {
 	// (no reset after Clear: the hook's wipe iterates prefixed keys and cannot empty the shared store)
 }
 
+// cutBoundaryScript: exactly K packable transactions around the per-block limit, nonce-checked ones (sorted
+// first) and gate transactions (sorted last) mixed so that the 200th/201st element is of either kind.
+func (s *script) cutBoundaryScript(K, a int) {
+	s.reset(true, true, true, true, 0)
+	s.srcs = canonicalSources(s.r)
+	s.setNonce(s.srcs[0], 0)
+	for i := 0; i < K; i++ {
+		if i < a {
+			s.add(s.newTx(s.r.Bytes(32), s.srcs[0], uint64(i), 0, 0))
+		} else {
+			s.add(s.newTx(s.r.Bytes(32), s.srcs[1+i%3], uint64(s.r.Intn(5)), uint64(1000+i), 0))
+		}
+	}
+	s.pack()
+	b := s.castBlock()
+	if s.mark(b) == "ok" {
+		s.pack()
+		s.stat()
+		s.unmark(b)
+	}
+	s.pack()
+}
+
 // corpus: "*.ops" files hold op lines; each is replayed against the real pool first.
 func (s *script) replayFile(path string) error {
 	f, err := os.Open(path)
@@ -797,6 +841,29 @@ func runCorr(a map[string]string, pool service.TransactionPool) {
 	// 4. generated scripts (one of each special kind first)
 	s.bigBlocks()
 	s.lru()
+	// boundaries of the per-block limit (deterministic shapes; quick runs half of them)
+	thorough := a["tier"] == "thorough"
+	for _, K := range []int{199, 200, 201} {
+		for _, n := range []int{0, 100, K - 1, K} {
+			if thorough || (K+n)%2 == 0 {
+				s.kind = "cut-boundary"
+				s.cutBoundaryScript(K, n)
+			}
+		}
+	}
+	// the real networks' schedules, at heights on both sides of every proposal the pool's path reads
+	for _, net := range []string{"mainnet", "robin"} {
+		for _, P := range netSchedules[net] {
+			for _, h := range []uint64{P - 1, P} {
+				s.kind = "schedule-" + net
+				nops := 40 + r.Intn(40)
+				if thorough {
+					nops = 150 + r.Intn(150)
+				}
+				s.generalAt(nops, r.Pick(0, 0, 4), false, false, net, h)
+			}
+		}
+	}
 	scripts := hx.ArgInt(a, "scripts", 60)
 	for i := 0; i < scripts; i++ {
 		switch x := r.Intn(100); {
